@@ -18,7 +18,7 @@ def _fams(th):
         _e("c03_names", "blocks 'Content-Length: 5' CRLF n 'ontent-lengt' n ': 6' CRLF | 'Connection: ' b 'ontent-length, transfer-encoding' CRLF 'Content-Length: 1' d CRLF | "
            "'Connection: content-length, ' b 'ransfer-encoding' CRLF 'Transfer-Encoding: chunked' CRLF 'Content-Length: 1' d CRLF" + c, ALL),
         _e("c03_te_dup", "block 'Transfer-Encoding: chunked' CRLF 'Transfer-Encoding:' " + q("b b", "b b b") + " CRLF" + c, ("rejected",)),
-        _e("c03_value", "block 'Content-Length:' " + q("b b", "b b b") + " CRLF" + c, ("accepted-length", "accepted-nobody", "rejected")),
+        _e("c03_value", "blocks 'Content-Length:' " + q("b b", "b b b") + " CRLF | 'Content-Length: 5' CRLF 'Content-Length:' b b CRLF (incl. the separator-only values ',' ',,' ' ,')" + c, ("accepted-length", "accepted-nobody", "rejected")),
     ]
 SPEC = dict(
     harness="C03_smuggle.cc", units=FWD3, unit_flags={"compat/xstring.cc": ["-Dxstrdup=vf_unused_squid_xstrdup"]},
@@ -48,8 +48,7 @@ SPEC = dict(
                  "token ':' value; whitespace trimmed at value and list-element edges = SP, HT, VT, FF (Squid trims the C-locale isspace class there; the C25/C26 oracles "
                  "accept that; RFC OWS is SP/HT only, so 'Content-Length: 5<VT>' read as 5 is accepted here); empty list elements ignored; Transfer-Encoding present => "
                  "chunked iff its codings are exactly 'chunked', else unframable; Content-Length values all 1*DIGIT and equal, else unframable",
-                 "KNOWN-FINDING candidate excluded by vf_assume: relaxed_header_parser on and Content-Length field(s) consisting only of empty list elements "
-                 "('Content-Length: ,'): accepted and forwarded as a request without body"],
+                 "a Content-Length field consisting of list separators only is a malformed Content-Length (request must be rejected)"],
     outside="blocks other than the listed families; HTTP/1.0 and HTTP/0.9 requests; Content-Length values of more than 18 digits (C26/C27); cache_peer/login variations (C04); "
             "LF inside the symbolic bytes (line structure: C25); what ConnStateData does with the bytes after the head",
 )
